@@ -426,9 +426,15 @@ fn render_fn(s: &FnSpec, annotated: bool, before: &[FnSpec]) -> String {
         // statements in front of the Box::pin tail: plain side effects
         let _ = writeln!(out, "        rt::log(format!(\"f{}:prefix\"));", s.id);
         let _ = writeln!(out, "        let _pg = rt::DropLog::new(\"f{}.prefix-guard\");", s.id);
+        // block-like statements (written without a trailing semicolon) in front of the tail
+        let _ = writeln!(out, "        let mut warm: i64 = {};", s.id % 5);
+        let _ = writeln!(out, "        if warm % 2 == 0 {{ rt::log(format!(\"f{}:prefix-if\")); warm += 7; }}", s.id);
+        let _ = writeln!(out, "        for round in 0..2 {{ rt::log(format!(\"f{}:prefix-for:{{}}\", round)); warm += round; }}", s.id);
+        let _ = writeln!(out, "        match warm {{ 0 => rt::log(format!(\"f{}:prefix-zero\")), _ => rt::log(format!(\"f{}:prefix-match:{{}}\", warm)) }}", s.id, s.id);
+        let _ = writeln!(out, "        {{ rt::log(format!(\"f{}:prefix-block\")) }}", s.id);
         let _ = writeln!(out, "        Box::pin(async move {{");
         let _ = writeln!(out, "        let _ct = rt::CallTrace::enter({}, fastrace::func_path!());", s.id);
-        let _ = writeln!(out, "        let mut acc: i64 = {};", s.id);
+        let _ = writeln!(out, "        let mut acc: i64 = {} + warm;", s.id);
         for (i, a) in s.args.iter().enumerate() {
             let _ = writeln!(out, "        acc = acc.wrapping_mul(31).wrapping_add({});", as_i64(*a, &format!("a{}", i)));
         }
